@@ -784,6 +784,8 @@ class Sink:
     """collects generated cases and processes them in batches: model, implementation, diff, predicates"""
     BATCH = 40000
     FIRST_BATCH = 4000      # a small first batch: a broken implementation is reported quickly
+    SEARCH_AFTER_DISAGREE = 60000   # quick tier: how long the search for a failing input goes on after the
+                                    # first model/implementation disagreement (thorough: to the end)
 
     def __init__(self, ctx, mp):
         self.ctx, self.mp = ctx, mp
@@ -791,7 +793,8 @@ class Sink:
         self.total = 0
         self.dist = {}
         self.nontriv = set()
-        self.bad = 0
+        self.bad = 0                    # concrete failing inputs found
+        self.first_disagree_at = None
         self.n_disagree = 0
         self.samples = []
         self.cross = []
@@ -801,6 +804,9 @@ class Sink:
         if len(self.buf) >= (self.FIRST_BATCH if self.total == 0 else self.BATCH):
             self.flush()
             if self.bad > 6:
+                raise EnoughViolations()
+            if self.first_disagree_at is not None and not self.ctx.thorough and \
+                    self.total - self.first_disagree_at > self.SEARCH_AFTER_DISAGREE:
                 raise EnoughViolations()
 
     def flush(self):
@@ -844,7 +850,9 @@ class Sink:
                 self.bad += 1
             elif rs != mo:
                 self.n_disagree += 1
-                if self.bad <= 6:
+                if self.first_disagree_at is None:
+                    self.first_disagree_at = self.total
+                if self.n_disagree <= 3 and self.bad <= 6:
                     def disagree(c):
                         return fmt_real(real_run(c, timeout=2.0)) != lib.run_model("C08", [enc_case(c)])[0]
                     small = shrink(case, disagree)
@@ -862,13 +870,13 @@ class Sink:
                         ctx.violation("iter", "Plugin.iter violates C08: %s (implementation: %s)"
                                       % (predicates(nb, rr, mp), fmt_real(rr)),
                                       {"input": show_case(nb), "impl": fmt_real(rr), "unit": "iter"})
+                        self.bad += 1
                     else:
                         ctx.violation("iter", "model/implementation disagree on Plugin.iter (impl `%s`, model `%s`); "
                                       "the property predicates hold on this input and its neighbourhood"
                                       % (fmt_real(real_run(small, timeout=2.0)), lib.run_model("C08", [enc_case(small)])[0]),
                                       {"input": "corr:C08/iter", "case": show_case(small), "unit": "iter"},
                                       no_failing_input=True)
-                self.bad += 1
         for k in (len(cases) // 7, len(cases) // 2, len(cases) - 5):
             if 0 <= k < len(cases) and len(self.samples) < 9:
                 self.samples.append({"unit": "iter", "case": show_case(cases[k]), "model": mout[k], "impl": rout[k][0]})
@@ -914,7 +922,8 @@ def run(ctx):
         gen_exhaustive(ctx, sink)
         sink.flush()
     except EnoughViolations:
-        ctx.notes.append("generation stopped early: more than 6 violations / disagreements already recorded")
+        ctx.notes.append("generation stopped early: more than 6 failing inputs recorded, or the quick-tier search "
+                         "budget after a model/implementation disagreement was used up")
     ctx.count("iter", sink.total, len(sink.nontriv), sink.dist)
     ctx.coverage["disagreements"] = sink.n_disagree
     ctx.notes.append("timing: " + "; ".join(getattr(sink, "timing", [])))
@@ -923,19 +932,47 @@ def run(ctx):
     crosscheck(ctx, sink.cross)
 
 
+def _variants(case):
+    """structural neighbours: the case itself; a row put into every row-free chunk of positive duration; the
+    last chunk of a dependency stretched by two time units with a row in the new part; an extra final chunk
+    with one row"""
+    import copy
+    yield case
+    for i, cs in enumerate(case["deps"]):
+        used = [r[2] for c in cs for r in c["rows"]]
+        nid = (max(used) + 1) if used else 100 * i
+        for j, c in enumerate(cs):
+            if not c["rows"] and c["e"] > c["s"]:
+                c2 = copy.deepcopy(case)
+                c2["deps"][i][j]["rows"] = [(c["s"], c["e"], nid, 0)]
+                yield c2
+        if cs:
+            last = cs[-1]
+            c2 = copy.deepcopy(case)
+            l2 = c2["deps"][i][-1]
+            l2["rows"] = list(l2["rows"]) + [(last["e"], last["e"] + 1, nid, 0)]
+            l2["e"] = last["e"] + 2
+            yield c2
+            c3 = copy.deepcopy(case)
+            c3["deps"][i].append(achunk(last["e"], last["e"] + 2, [(last["e"], last["e"] + 1, nid, 0)], last["dt"],
+                                        last["kind"], last["run"]))
+            yield c3
+
+
 def neighbourhood(case):
-    """small-scope sweep around a case: every save_when, every kind pattern, plain/exhaust"""
+    """small-scope sweep around a case: structural variants x every save_when x every kind pattern"""
     import copy
     n = len(case["kinds"])
-    for sw in (0, 1, 2, 3):
-        for kinds in kind_patterns(n, 3):
-            c2 = copy.deepcopy(case)
-            c2["sw"] = sw
-            c2["kinds"] = kinds
-            for k, cs in zip(kinds, c2["deps"]):
-                for c in cs:
-                    c["kind"] = k
-            yield c2
+    for var in _variants(case):
+        for sw in (3, 2, 1, 0):
+            for kinds in kind_patterns(n, 3):
+                c2 = copy.deepcopy(var)
+                c2["sw"] = sw
+                c2["kinds"] = kinds
+                for k, cs in zip(kinds, c2["deps"]):
+                    for c in cs:
+                        c["kind"] = k
+                yield c2
 
 
 # ---- kernel cross-check of the extraction: a sample re-evaluated inside Coq by vm_compute ----
